@@ -166,8 +166,35 @@ def close(a, b, tol=TOL_CORR):
     return abs(a - b) <= tol + 1e-9 * max(abs(a), abs(b))
 
 
+def impl_same(a, b, tol=1e-9):
+    """two answers of the IMPLEMENTATION (core.correspond re-evaluates a call later in the run and compares them)"""
+    if isinstance(a, list) and isinstance(b, list):
+        if len(a) != len(b):
+            return False
+        for x, y in zip(a, b):
+            if isinstance(x, tuple) and isinstance(y, tuple) and len(x) == 3 and len(y) == 3:
+                if x[0] != y[0] or x[1] != y[1] or not close(x[2], y[2], tol):
+                    return False
+            elif x != y:
+                return False
+        return True
+    if isinstance(a, str) and isinstance(b, str) and a.startswith('OK ') and b.startswith('OK '):
+        try:
+            return close(float(a[3:]), float(b[3:]), tol)
+        except ValueError:
+            return a == b
+    return a == b
+
+
+def is_model_reply(m):
+    """model replies are strings; numeric ones carry exact rationals `num/den`"""
+    return isinstance(m, str)
+
+
 def cmp_mass(im, m):
     """impl canonical string vs model reply"""
+    if not isinstance(im, str) or not isinstance(m, str) or (m.startswith('OK ') and '/' not in m):
+        return impl_same(im, m)
     if im.startswith('OK '):
         if not m.startswith('OK '):
             return False
@@ -178,6 +205,8 @@ def cmp_mass(im, m):
 
 
 def cmp_comp(im, m, ordered=False):
+    if not isinstance(m, str) or (isinstance(im, str) and not im.startswith('ERR') and im != 'NONE'):
+        return impl_same(im, m)
     if im == 'ERR:SPECIAL' and m.startswith('OK'):
         return any(math.isinf(v) for _, _, v in parse_model_comp(m[3:]))
     if isinstance(im, list):
@@ -249,7 +278,7 @@ def spelling_failure(pt, kind, e, include_bare=True):
     return None
 
 
-def run(chk):
+def _run(chk):
     import peptacular as pt
     from peptacular.mods import mod_db_setup as S, mod_db as MD
     from peptacular import constants as K
@@ -265,7 +294,9 @@ def run(chk):
     try:
         chk.generated_changed += TV.translate()
     except TV.TranslateError as e:
-        raise core.InfraError(f'translate_vocab: {e}')
+        # the loaded vocabularies are inconsistent (index not 'last entry wins', non-finite mass, ...): reported, the tables
+        # generated last time stay in place
+        chk.disagreements.append({'op': 'translate_vocab', 'line': 'loaded tables -> Lean', 'impl': str(e)[:500], 'model': 'n/a'})
     PROPS = ['PeptVerif.Props.C10', 'PeptVerif.Props.C10TabU', 'PeptVerif.Props.C10TabP', 'PeptVerif.Props.C10TabX',
              'PeptVerif.Props.C10Mass', 'PeptVerif.Props.C10Generic', 'PeptVerif.Props.C10Glycan'] + (
                  ['PeptVerif.Props.C10Resolve'] if os.path.exists(os.path.join(core.LEAN, 'PeptVerif', 'Props', 'C10Resolve.lean'))
@@ -344,6 +375,8 @@ def run(chk):
         return repr((raw[0], raw[1], None if raw[2] is None else float(raw[2]), None if raw[3] is None else float(raw[3])))
 
     def raw_cmp(im, m):
+        if '\t' not in m:
+            return im == m
         f = m.split('\t')
         if len(f) != 6 or im == 'missing':
             return False
@@ -543,6 +576,8 @@ def run(chk):
     for s in chk.corr['decorated_comp']['samples']:
         s['impl'] = str(s['impl'])[:300]
     mult_cases = [(s, rng.choice([0, 1, 2, 3, 5, -1, 10])) for s in rnd[:nrand // 4]]
+    mult_cases += [(p + k, n) for p in ('Glycan:', 'glycan:') for k in mono_names for n in (2, 3)]
+    mult_cases += [(rng.choice(sp_cases)[2], rng.choice([2, 3])) for _ in range(200)]
     chk.correspond('mult_mass', DRV, mult_cases, lambda c: f'massmult\t{enc(c[0])}\t{c[1]}\t1',
                    lambda c: show_impl_mass(lambda: guarded(pt.mod_mass, Mod(c[0], c[1]), monoisotopic=True)), compare=cmp_mass,
                    nontrivial_fn=ok)
@@ -789,6 +824,7 @@ def run(chk):
     nstate = 300 if not big else 3000
     sstrings = [rng.choice(sp_cases)[2] for _ in range(nstate)] + ['Acetyl', 'U:1', 'MOD:00046', 'X:01000', 'Glycan:Hex2HexNAc',
                                                                    'Formula:C6H12O6', 'Formula:[13C2]H4', 'Glycan:Hex1Hex2']
+    sstrings += ['Glycan:' + k for k in mono_names]
     sstrings += [s for s in rnd[:nstate] if '|' not in s]
     iso_cases = []
     mix_cases = []
@@ -798,6 +834,9 @@ def run(chk):
         if t.lower().startswith('formula:') and ':' not in t[8:]:
             f = t[8:]
             others += [['parse_chem_formula', [f, '']], ['apply_isotope_mods_to_composition', [f, ['13C']]], ['chem_mass', [f, True, '']]]
+        others += [['mod_comp_mult', [t, 2]], ['mod_mass_mult', [t, 3, True]]]
+        if all(c not in t for c in '[]{}()<>') and t:
+            others += [['comp', ['PEPT[' + t + ']^2IDE']], ['mass', ['PEPT[' + t + ']IDE']]]
         if t.lower().startswith('glycan:') and ':' not in t[7:]:
             others += [['glycan_comp', [t[7:]]], ['glycan_mass', [t[7:], True]], ['parse_glycan_formula', [t[7:], '']]]
         iso_cases.append(refs[0])
@@ -851,11 +890,39 @@ def _show_convert(s):
 
 
 def _cmp_convert(im, m):
+    if isinstance(m, str) and '/' not in m:
+        return im == m or (im[:2] == m[:2] and im[:2] in ('i:', 'f:') and close(float(im[2:]), float(m[2:]), 1e-12))
     if im in ('STR', 'SPECIAL'):
         return im == m
     if m[:2] != im[:2]:
         return False
     return close(float(im[2:]), float(parse_model_rat(m[2:])), 1e-12)
+
+
+def run(chk):
+    """a check never crashes on an odd tree: an exception escaping a stage (library state the harness did not expect) is
+    reported as a failure of the run, with the traceback, not as an infrastructure error"""
+    import traceback
+    _c = chk.correspond
+
+    def safe_correspond(name, exe, cases, line_fn, impl_fn, compare=None, **kw):
+        def cmp(a, b):
+            try:
+                return compare(a, b)
+            except Exception:  # noqa
+                return a == b
+        return _c(name, exe, cases, line_fn, impl_fn, compare=(cmp if compare else None), **kw)
+    chk.correspond = safe_correspond
+    try:
+        return _run(chk)
+    except core.InfraError:
+        raise
+    except Exception:  # noqa
+        tb = traceback.format_exc()
+        chk.failures.append({'oracle': 'check_stage_exception', 'case': None,
+                             'detail': 'an exception escaped a stage of the check while it was evaluating the implementation '
+                                       '(library state or return value the harness did not expect): ' + tb[-1800:]})
+        return chk.finish(classify)
 
 
 def classify(f):
